@@ -1,6 +1,6 @@
 """C12 - runtime tracebacks and compile warnings map to template lines.
 
-corr (a) : Lean printer model (Printer/Model.lean, driver op `prn run`) vs the real `PythonPrinter`, driven
+corr (a) : Lean printer model (Printer/Model.lean, driver op `printer run`) vs the real `PythonPrinter`, driven
            directly on an io.StringIO with random emission sequences: source_map, lineno, number of newlines
            in the stream, order of the physical lines, and the dense map computed by the *real*
            `ModuleInfo.get_module_source_metadata` on the real generated text.
@@ -9,9 +9,9 @@ corr (b) : instrumented codegen: the real `PythonPrinter` is wrapped while `Temp
            of the real module; owners are derived from the node / callable being visited (independent of
            the `start_source` calls) and every generated line whose mark differs from its owner is
            classified by emitting call site (the list of such sites is pinned: KNOWN_UNMARKED).
-corr (c) : `RichTraceback._init`, `.traceback`, `.lineno` decision logic (`prn tb`, `prn pick`) and the
-           warnings helpers (`prn warn`) vs the real functions.
-corr (d) : the Lean emission skeleton of codegen's visit*/write_* methods (Printer/Codegen.lean, `prn emitall`):
+corr (c) : `RichTraceback._init`, `.traceback`, `.lineno` decision logic (`printer tb`, `printer pick`) and the
+           warnings helpers (`printer warn`) vs the real functions.
+corr (d) : the Lean emission skeleton of codegen's visit*/write_* methods (Printer/Codegen.lean, `printer emitall`):
            the item list of a real compilation is rebuilt from the visited nodes and `emitAll items` is compared
            with the recorded event sequence, event by event.
 oracle   : (no Lean) generated template sets with ONE raising expression / statement planted at every
@@ -228,13 +228,13 @@ def corr_a(ctx):
         evs = evs + [("C",)] if ctx.rng.random() < 0.8 else evs
         cases.append(evs)
     runs = [real.run(evs) for evs in cases]
-    reqs = ["prn run " + " ".join(ev_tok(e) for e in r[2]) for r in runs]
+    reqs = ["printer run " + " ".join(ev_tok(e) for e in r[2]) for r in runs]
     outs = drv.ask_many([q.rstrip() for q in reqs])
     # second request: the prefix up to and including the first M (what the JSON snapshot holds)
     pre_reqs, pre_idx = [], []
     for i, r in enumerate(runs):
         if r[4] is not None and r[3] is None:
-            pre_reqs.append(("prn run " + " ".join(ev_tok(e) for e in r[2][:r[4]])).rstrip())
+            pre_reqs.append(("printer run " + " ".join(ev_tok(e) for e in r[2][:r[4]])).rstrip())
             pre_idx.append(i)
     pre_outs = dict(zip(pre_idx, drv.ask_many(pre_reqs)))
     for i, (evs, (p, buf, mevs, exc, meta_at), o) in enumerate(zip(cases, runs, outs)):
@@ -1116,6 +1116,8 @@ def witness_sets():
     W.append(("expr", hand_set({"main": "a\nb\n${{S}}\nc"}, "expr", "1", "1/0", [("main", 3, "slot:expr")])))
     W.append(("code", hand_set({"main": "a\n<%\n  x = 1\n  {S}\n%>\nc"}, "code", "pass", "raise ValueError('m')",
                                [("main", 4, "slot:code")])))
+    W.append(("control-for-loop", hand_set({"main": "a\nb\n% for i in ({S},):\n${str(loop.index)}\n% endfor\nc"}, "control-for-loop",
+                                           "1", "1/0", [("main", 3, "slot:control")])))
     W.append(("stub", hand_set({"main": "a\nb\n<%def name=\"f()\">\n  ${{S}}\n</%def>\n${f()}\nlast"}, "expr", "1", "1/0",
                                [("main", 6, "call-expr"), ("main", 3, "stub"), ("main", 4, "slot:expr")])))
     W.append(("stub-page", hand_set({"main": "<%page args=\"pa=1\"/>\nb\n<%def name=\"f()\">\n  ${{S}}\n</%def>\n${f()}\nlast"},
@@ -1198,6 +1200,7 @@ class Env:
             with open(os.path.join(d, tid + ".html"), "w", encoding="utf-8") as f:
                 f.write(tx)
         names = {tid: os.path.join(d, tid + ".html") for tid in texts}
+        self.last_dir = d
         if path == "file":
             lk = TemplateLookup(directories=[d], **opts)
             return Template(filename=names[ts.main], lookup=lk, **opts), names, texts
@@ -1208,6 +1211,48 @@ class Env:
             lk = TemplateLookup(directories=[d], module_directory=os.path.join(d, "mods"), **opts)
             return lk.get_template(ts.uri(ts.main)), names, texts
         raise ValueError(path)
+
+
+def construct_again(env, ts, needs_render=False):
+    """a second construction of the module-directory template just built: the module file is up to date and reused"""
+    from mako.lookup import TemplateLookup
+    d = env.last_dir
+    lk = TemplateLookup(directories=[d], module_directory=os.path.join(d, "mods"), **ts.opts)
+    t = lk.get_template(ts.uri(ts.main))
+    if needs_render:
+        t.render_unicode()
+    return t
+
+
+SUBPROCESS_SCRIPT = r"""
+import sys, json, warnings
+sys.path.insert(0, sys.argv[1])
+from mako.lookup import TemplateLookup
+d, render, sub = sys.argv[2], sys.argv[3] == "1", sys.argv[4]
+with warnings.catch_warnings(record=True) as rec:
+    warnings.simplefilter("always")
+    t = TemplateLookup(directories=[d], module_directory=d + "/mods").get_template("/main.html")
+    if render:
+        t.render_unicode()
+print(json.dumps([[w.filename, w.lineno] for w in rec if sub in str(w.message)]))
+"""
+
+
+def construct_in_subprocess(env, needs_render, msgsub, drop_bytecode):
+    """the same in a fresh interpreter; with `drop_bytecode` the byte code cache is removed and not rewritten, so
+    that the import system compiles the reused module file again"""
+    import subprocess
+    from harness.common import REPO
+    d = env.last_dir
+    e = dict(os.environ)
+    if drop_bytecode:
+        shutil.rmtree(os.path.join(d, "mods", "__pycache__"), ignore_errors=True)
+        e["PYTHONDONTWRITEBYTECODE"] = "1"
+    p = subprocess.run([sys.executable, "-c", SUBPROCESS_SCRIPT, REPO, d, "1" if needs_render else "0", msgsub],
+                       stdout=subprocess.PIPE, stderr=subprocess.PIPE, env=e, timeout=120)
+    if p.returncode != 0:
+        raise RuntimeError("subprocess failed: " + p.stderr.decode()[-1500:])
+    return [tuple(x) for x in json.loads(p.stdout.decode().strip().split("\n")[-1])]
 
 
 TEXT_FRAME = re.compile(r'^  File "(.*)", line (\d+), in (.*)$')
@@ -1555,6 +1600,49 @@ def run_warning_case(case, path, action, env):
     return shown, raised, names
 
 
+def reuse_checks(ctx, col, case, action, env, want_file, line, cd, size, rd):
+    """module-directory templates, second construction: the up-to-date module file is REUSED.  A warning raised
+    while it is loaded (always: `warnings.warn` in <%! %>; compile warnings when the import system has to compile
+    the file again) must be shown exactly once against the template's file and line as well."""
+    msgsub = LITERALS[case["literal"]][1] if case["literal"] else "module body warning"
+    ts = TSet(None)
+    ts.opts = {}
+    for tid, text in case["templates"].items():
+        ts.templates[tid] = text.split("\n")
+    st = ctx.stream("oracle.warnings_module_file_reuse", "oracle")
+
+    def judge(where, shown, must_show):
+        st["cases"] += 1
+        ctx.branch("oracle:reuse:%s:%s" % (where, "shown" if shown else "silent"))
+        c = dict(cd, construction=where)
+        if not shown:
+            if must_show:
+                col.add("warning:module-file-reuse:not-shown", size, c, {"shown": []})
+        elif shown != [(want_file, line)]:
+            what = ("shown-more-than-once" if len(shown) > 1 else
+                    "filename" if shown[0][0] != want_file else "line")
+            col.add("warning:module-file-reuse:" + what, size, c, {"shown": shown, "want": [want_file, line]})
+    with warnings.catch_warnings(record=True) as rec:
+        warnings.simplefilter(action)
+        try:
+            construct_again(env, ts, case["needs_render"])
+        except Exception as e:
+            col.add("warning:module-file-reuse:exception", size, dict(cd, construction="second"), {"raised": repr(e)[:200]})
+            return
+    shown = [(w.filename, w.lineno) for w in rec if msgsub in str(w.message)]
+    # module-level code runs on every load; compile warnings only when the file is compiled again
+    judge("second-in-process", shown, must_show=case["literal"] is None)
+    sub = (zlib.crc32(repr((case["name"], action, rd)).encode()) % (4 if ctx.quick else 2)) == 0
+    if sub or case["literal"] is None:
+        try:
+            shown = construct_in_subprocess(env, case["needs_render"], msgsub, drop_bytecode=False)
+            judge("subprocess", shown, must_show=case["literal"] is None)
+            shown = construct_in_subprocess(env, case["needs_render"], msgsub, drop_bytecode=True)
+            judge("subprocess-recompiles", shown, must_show=True)
+        except RuntimeError as e:
+            ctx.broke("oracle:reuse-subprocess", str(e))
+
+
 def oracle_warn(ctx, env):
     st = ctx.stream("oracle.warnings", "oracle")
     col = Collector(ctx, "oracle.warnings")
@@ -1603,6 +1691,8 @@ def oracle_warn(ctx, env):
                         col.add("warning:unexpected-exception:" + case["site"], size, cd, {"raised": repr(raised)[:200]})
                         continue
                     if shown == [(want_file, line)]:
+                        if path == "moddir" and not case["name"].startswith("attr:"):
+                            reuse_checks(ctx, col, case, action, env, want_file, line, cd, size, rd)
                         continue
                     if not shown:
                         col.add("warning:not-shown:" + case["site"], size, cd, {"shown": []})
@@ -1667,7 +1757,7 @@ def corr_b(ctx):
             ctx.branch("b:compile-raised:" + type(e).__name__)
             continue
         recs.append((text, events, code))
-        reqs.append(("prn run " + " ".join(ev_tok(e[0]) for e in events)).rstrip())
+        reqs.append(("printer run " + " ".join(ev_tok(e[0]) for e in events)).rstrip())
     outs = drv.ask_many(reqs)
     unknown_sites = {}
     for (text, events, code), o in zip(recs, outs):
@@ -1729,7 +1819,7 @@ def corr_b(ctx):
                 toks.append(ev_tok(("W", ev[1], None)))
             else:
                 toks.append(ev_tok(ev))
-        reqs2.append(("prn run " + " ".join(toks)).rstrip())
+        reqs2.append(("printer run " + " ".join(toks)).rstrip())
     outs2 = drv.ask_many(reqs2)
     st2 = ctx.stream("corr.well_marked_walk")
     for (text, events, code), o in zip(recs, outs2):
@@ -1775,7 +1865,7 @@ def corr_c(ctx):
         reg = rng.random() < 0.8
         ln = rng.randint(1, len(fm) + 2)
         cases.append((reg, ln, fm, nt))
-    outs = drv.ask_many(["prn tb %d %d %s %d" % (int(r), ln, ",".join(map(str, fm)), nt) for r, ln, fm, nt in cases])
+    outs = drv.ask_many(["printer tb %d %d %s %d" % (int(r), ln, ",".join(map(str, fm)), nt) for r, ln, fm, nt in cases])
     orig_extract = X.traceback.extract_tb
     keep = []
     try:
@@ -1817,7 +1907,7 @@ def corr_c(ctx):
         picks = []
         for _ in range(n2):
             picks.append([rng.choice(["p", "p", 0, 1, 2, 3]) for _ in range(rng.randint(1, 6))])
-        outs2 = drv.ask_many(["prn pick " + " ".join(map(str, p)) for p in picks])
+        outs2 = drv.ask_many(["printer pick " + " ".join(map(str, p)) for p in picks])
         info = object.__new__(MT.ModuleInfo)
         info.module = types.SimpleNamespace(_source_encoding=None)
         info.module_filename = None
@@ -1863,7 +1953,7 @@ def corr_c(ctx):
             f = "u" if (ph in "pb" and rng.random() < 0.8) else rng.choice("umo")
             ws.append((ph, f, rng.randint(1, 7), rng.choice([65, 65, 66, 67])))
         pre = sorted(set(rng.choice([65, 66, 67]) for _ in range(rng.randint(0, 2)))) if act == "once" else []
-        req = "prn warn %s %s %s %s" % (act, "-" if (broken_meta or not fm) else ",".join(map(str, fm)),
+        req = "printer warn %s %s %s %s" % (act, "-" if (broken_meta or not fm) else ",".join(map(str, fm)),
                                         "-" if not pre else ",".join(map(str, pre)),
                                         " ".join("%s:%s:%d:%d" % w for w in ws))
         o = drv.ask(req) if False else None
@@ -2039,7 +2129,7 @@ def corr_d(ctx):
         rec = record_compile.last
         items = items_of_recording(rec)
         want = [ev_tok(norm_event(ev, line, site)) for ev, site, line in events]
-        reqs.append("prn emitall " + " ".join(items))
+        reqs.append("printer emitall " + " ".join(items))
         keep.append((text, items, want))
         for it in items:
             ctx.branch("d:item:" + it.split(":")[0])
@@ -2116,7 +2206,7 @@ def oracle_inside_template(ctx):
         src = ("pad\n" * pad + "<%\n    from mako.exceptions import RichTraceback\n    try:\n        x = 1/0\n"
                "    except Exception:\n        tb = RichTraceback()\n%>\n"
                "${tb.lineno}|${tb.source == self.template.source}|${[(r[4] is not None, r[5]) for r in tb.records]}")
-        out = Template(src).render_unicode().strip()
+        out = Template(src).render_unicode().strip().split("\n")[-1]
         want_line = pad + 4
         want = "%d|True|[(True, %d)]" % (want_line, want_line)
         if out != want:
@@ -2138,6 +2228,7 @@ def run(ctx):
             corr_a(ctx)
             corr_b(ctx)
             corr_c(ctx)
+            corr_plan(ctx)
             corr_d(ctx)
         finally:
             try:
@@ -2186,7 +2277,7 @@ def replay(ctx, data):
             print("  frames :", summ)
             try:
                 events, code = record_compile(case["input"], **ts.opts)
-                m = parse_resp(ctx.driver().ask("prn run " + " ".join(ev_tok(e[0]) for e in events)))
+                m = parse_resp(ctx.driver().ask("printer run " + " ".join(ev_tok(e[0]) for e in events)))
                 bad = [r for r in analyse_recording(events, m) if r[1] is not None and r[1] != r[2] and not r[5]]
                 print("  model: observable generated lines whose mark differs from their owner:")
                 for r in bad[:12]:
@@ -2202,6 +2293,14 @@ def replay(ctx, data):
             print("  shown :", shown)
             print("  raised:", repr(raised)[:300])
             tid, line = c["expected"]
+            if case.get("construction"):
+                c2 = type(ctx)(ctx.pid, "thorough", 0)
+                col = Collector(c2, "oracle.warnings")
+                reuse_checks(c2, col, c, case["action"], env, names[tid], line, dict(case), 0, 0)
+                col.flush()
+                for v in c2.violations:
+                    print("   reuse:", v["site"], v["case"].get("construction"), v["detail"])
+                return not c2.violations
             if case["action"] == "error":
                 return (raised is not None and type(raised).__module__.startswith("mako")
                         and getattr(raised, "lineno", None) == line and not shown)
@@ -2221,4 +2320,98 @@ def replay(ctx, data):
     return False
 
 
-DRIVER_OPS = ["prn"]   # per-area driver executable(s) this check talks to (built before any worker is forked)
+DRIVER_OPS = ["printer"]   # per-area driver executable(s) this check talks to (built before any worker is forked)
+
+
+# --------------------------------------------------------------------------------------------------
+# corr (c4): which step of Template._compile_from_file runs under which warnings hook
+
+def corr_plan(ctx):
+    """the four situations of a module-directory construction (module file missing / reused / stale; loaded
+    module accepted or not) on the real `_compile_from_file`; `_compile_module_file` and `compat.load_module`
+    are wrapped to raise probe warnings, whose display tells which hooks are installed at that moment
+    (behavioural: a probe against the module file shown against the template = translation hook active; a probe
+    against `<unknown>` not shown = drop hook active)"""
+    import mako.template as MT
+    from mako.template import Template
+    drv = ctx.driver()
+    st = ctx.stream("corr.compile_from_file_plan")
+    root = tempfile.mkdtemp(prefix="c12p_")
+    orig_cmf, orig_load = MT._compile_module_file, MT.compat.load_module
+    steps = []
+
+    def probe(kind, path, with_module_probe):
+        k = len(steps)
+        steps.append(kind)
+        warnings.warn_explicit("probe-unk-%d" % k, UserWarning, "<unknown>", 1)
+        if with_module_probe:
+            warnings.warn_explicit("probe-mod-%d" % k, UserWarning, path, 1)
+
+    def cmf(template, text, filename, outputpath, module_writer):
+        probe("regen", outputpath, False)      # the module file may not exist yet: no probe against it
+        return orig_cmf(template, text, filename, outputpath, module_writer)
+
+    def load(module_id, path):
+        probe("load", path, True)
+        return orig_load(module_id, path)
+    try:
+        MT._compile_module_file, MT.compat.load_module = cmf, load
+        n = 0
+        for rd in range(2 if ctx.quick else 10):
+            for up_to_date in (False, True):
+                for accepted in (True, False):
+                    n += 1
+                    d = os.path.join(root, "p%d" % n)
+                    os.makedirs(d)
+                    fn = os.path.join(d, "t.html")
+                    with open(fn, "w") as f:
+                        f.write("a\n${1}\n")
+                    mods = os.path.join(d, "mods")
+                    calls = [0]
+
+                    def bad_writer(source, outputpath, _calls=calls):
+                        _calls[0] += 1
+                        if _calls[0] == 1:
+                            source = source.replace(b"_magic_number = ", b"_magic_number = 1000 + ")
+                        with open(outputpath, "wb") as f:
+                            f.write(source)
+                    if up_to_date:
+                        # a module file is there already; for "not accepted" it carries another magic number
+                        MT._compile_module_file, MT.compat.load_module = orig_cmf, orig_load
+                        try:
+                            Template(filename=fn, module_directory=mods)
+                            mp = os.path.join(mods, os.path.relpath(fn, "/") + ".py")
+                            if not accepted:
+                                src = open(mp, "rb").read().replace(b"_magic_number = ", b"_magic_number = 1000 + ")
+                                open(mp, "wb").write(src)
+                                shutil.rmtree(os.path.join(os.path.dirname(mp), "__pycache__"), ignore_errors=True)
+                            t = os.stat(fn).st_mtime + 5
+                            os.utime(mp, (t, t))
+                        finally:
+                            MT._compile_module_file, MT.compat.load_module = cmf, load
+                        kw = {}
+                    else:
+                        kw = {} if accepted else {"module_writer": bad_writer}
+                    del steps[:]
+                    with warnings.catch_warnings(record=True) as rec:
+                        warnings.simplefilter("always")
+                        Template(filename=fn, module_directory=mods, **kw)
+                    shown = {str(w.message): w.filename for w in rec if str(w.message).startswith("probe-")}
+                    got = []
+                    for k, kind in enumerate(steps):
+                        drop = ("probe-unk-%d" % k) not in shown
+                        if kind == "load":
+                            translated = shown.get("probe-mod-%d" % k) == fn
+                            got.append("load:" + {(True, True): "b", (True, False): "m", (False, True): "p", (False, False): "n"}[(translated, drop)])
+                        else:
+                            got.append("regen:" + ("drop" if drop else "nodrop"))
+                    o = drv.ask("printer plan %d %d" % (int(up_to_date), int(accepted)))
+                    model = [x if x.startswith("load") else ("regen:drop" if x.split(":")[1] in ("p", "b") else "regen:nodrop")
+                             for x in o.split(" ")]
+                    st["cases"] += 1
+                    ctx.branch("c:plan:upToDate=%d,accepted=%d:%s" % (up_to_date, accepted, "+".join(got)))
+                    if got != model:
+                        ctx.disagree("corr.compile_from_file_plan", {"input": [up_to_date, accepted]}, o, got)
+    finally:
+        MT._compile_module_file, MT.compat.load_module = orig_cmf, orig_load
+        shutil.rmtree(root, ignore_errors=True)
